@@ -121,8 +121,9 @@ def run(ck, ix, tier):
     if ae is None:
         raise AnalysisError("_apply_e_notation not found")
     cfg = cfg_of(ae)
-    tests = [norm(n.ast) for n in cfg.nodes if n.kind == "test"]
-    ck.check("mantissa.string == 'nan'" in tests and "float(mantissa.string) == 0.0" in tests and len(tests) == 2, "G-PROV", "_apply_e_notation|exponent-skipped-only-for-nan-and-zero", ae.loc(),
+    # the set of conditions under which the exponent is skipped, however they are spelled (two ifs, one `or`, ...)
+    tests = sorted({norm(a) for n in cfg.nodes if n.kind == "test" for a in ast.walk(n.ast) if isinstance(a, (ast.Compare, ast.Call)) and not any(a is not b and isinstance(b, (ast.Compare,)) and a in ast.walk(b) for b in ast.walk(n.ast))})
+    ck.check(tests == ["float(mantissa.string) == 0.0", "mantissa.string == 'nan'"], "G-PROV", "_apply_e_notation|exponent-skipped-only-for-nan-and-zero", ae.loc(),
              "the common exponent is skipped only for nan and for a mantissa equal to zero", f"the guards of _apply_e_notation are {tests}: a mantissa like 0.030 must receive the common exponent (only nan and zero are exempt)")
     ck.check("string=f'{mantissa.string}{exponent.string}'" in norm(ae.node), "G-PROV", "_apply_e_notation|mantissa-followed-by-exponent", ae.loc(), "token text = mantissa + exponent", "the combined token is no longer mantissa followed by exponent")
     fe = helpers.get("_finalize_e")
